@@ -172,6 +172,11 @@ def generate(tier):
         r_ = underscorify(c)
         if r_:
             cases.append(r_)
+        from .common import localsify
+        for sch in (0, 1):
+            r_ = localsify(c, sch)
+            if r_:
+                cases.append(r_)
     for sh in S.struct_shapes(2) + S.enum_shapes(2, 2):
         if not sh.positions():
             continue
